@@ -98,6 +98,9 @@ def Prog.run (p : Prog) : ActionF := fun bs =>
     | .bs => { exe := some (some b, em), err := none }
     | .fresh => { exe := some (some [("fresh", .bool true)], em), err := none }
     | .null => { exe := some (none, em), err := none }
-    | .scalar | .array =>
+    | .scalar =>
       if p.native then { exe := some (some b, em), err := none }
-      else { exe := none, err := some notBindingsMsg }
+      else { exe := none, err := some (notBindingsMsg ++ ":scalar") }
+    | .array =>
+      if p.native then { exe := some (some b, em), err := none }
+      else { exe := none, err := some (notBindingsMsg ++ ":array") }
